@@ -4,7 +4,6 @@ import (
 	"bytes"
 	"fmt"
 	"strconv"
-	"unsafe"
 
 	"github.com/goccy/go-json/internal/errors"
 )
@@ -247,11 +246,57 @@ func compactNumber(dst, src []byte, cursor int64) ([]byte, int64, error) {
 		break
 	}
 	num := src[start:cursor]
-	if _, err := strconv.ParseFloat(*(*string)(unsafe.Pointer(&num)), 64); err != nil {
-		return nil, 0, err
+	if !isValidNumber(num) {
+		e := &strconv.NumError{Func: "ParseFloat", Num: string(num), Err: strconv.ErrSyntax}
+		return nil, 0, errors.ErrSyntax(e.Error(), cursor)
 	}
 	dst = append(dst, num...)
 	return dst, cursor, nil
+}
+
+// isValidNumber reports whether b is a JSON number literal (RFC 8259 section 6):
+// -? (0 | [1-9][0-9]*) (\.[0-9]+)? ([eE][+-]?[0-9]+)?
+// strconv.ParseFloat also accepts "01", "1." and "-.5" and rejects "1e999", which is valid JSON.
+func isValidNumber(b []byte) bool {
+	isDigit := func(c byte) bool { return '0' <= c && c <= '9' }
+	i, n := 0, len(b)
+	if i < n && b[i] == '-' {
+		i++
+	}
+	switch {
+	case i == n:
+		return false
+	case b[i] == '0':
+		i++
+	case '1' <= b[i] && b[i] <= '9':
+		for i < n && isDigit(b[i]) {
+			i++
+		}
+	default:
+		return false
+	}
+	if i < n && b[i] == '.' {
+		i++
+		if i == n || !isDigit(b[i]) {
+			return false
+		}
+		for i < n && isDigit(b[i]) {
+			i++
+		}
+	}
+	if i < n && (b[i] == 'e' || b[i] == 'E') {
+		i++
+		if i < n && (b[i] == '+' || b[i] == '-') {
+			i++
+		}
+		if i == n || !isDigit(b[i]) {
+			return false
+		}
+		for i < n && isDigit(b[i]) {
+			i++
+		}
+	}
+	return i == n
 }
 
 func compactTrue(dst, src []byte, cursor int64) ([]byte, int64, error) {
